@@ -31,15 +31,16 @@ type lockInfo struct {
 // delivered, locks) is its own, derived from the emission and delivery logs; it never
 // reads RoundState.
 type Monitor struct {
-	s           *Sim
-	Counters    map[string]int64
-	Violations  []Violation
-	own         map[int]map[hrt]types.BlockID           // node -> (H,R,type) -> vote emitted
-	delivered   map[int]map[hrt]map[int]map[string]bool // node -> (H,R,type) -> validator -> block keys delivered (valid signatures only)
-	locks       map[int]map[uint64]lockInfo             // node -> height -> last non-nil precommit
-	commits     map[uint64]map[int]common.Hash
-	proposedIDs map[uint64][]types.BlockID
-	maxRound    int
+	s            *Sim
+	Counters     map[string]int64
+	Violations   []Violation
+	own          map[int]map[hrt]types.BlockID           // node -> (H,R,type) -> vote emitted
+	delivered    map[int]map[hrt]map[int]map[string]bool // node -> (H,R,type) -> validator -> block keys delivered (valid signatures only)
+	locks        map[int]map[uint64]lockInfo             // node -> height -> last non-nil precommit
+	commits      map[uint64]map[int]common.Hash
+	commitRounds map[uint64]map[int]bool
+	proposedIDs  map[uint64][]types.BlockID
+	maxRound     int
 	// proposer views: (height, round) -> proposer address as seen by the first node observed there
 	proposerAt map[[2]uint64]string
 	proposerBy map[[2]uint64]int
@@ -57,7 +58,7 @@ type Monitor struct {
 
 func NewMonitor(s *Sim) *Monitor {
 	return &Monitor{s: s, Counters: map[string]int64{}, own: map[int]map[hrt]types.BlockID{}, delivered: map[int]map[hrt]map[int]map[string]bool{},
-		locks: map[int]map[uint64]lockInfo{}, commits: map[uint64]map[int]common.Hash{}, proposedIDs: map[uint64][]types.BlockID{}}
+		locks: map[int]map[uint64]lockInfo{}, commits: map[uint64]map[int]common.Hash{}, commitRounds: map[uint64]map[int]bool{}, proposedIDs: map[uint64][]types.BlockID{}}
 }
 
 func (m *Monitor) count(k string, n int64) { m.Counters[k] += n }
@@ -340,6 +341,17 @@ func (m *Monitor) OnCommit(ev CommitEvent) {
 	}
 	if round > 0 {
 		m.count("commits_in_round_gt0", 1)
+	}
+	// two nodes holding commits of the same block from different rounds (each valid on its own): the next
+	// height's proposal carries one of them, the other nodes check it against what they saw themselves
+	if m.commitRounds[ev.Height] == nil {
+		m.commitRounds[ev.Height] = map[int]bool{}
+	}
+	if round >= 0 && !m.commitRounds[ev.Height][round] {
+		m.commitRounds[ev.Height][round] = true
+		if len(m.commitRounds[ev.Height]) == 2 {
+			m.count("heights_committed_in_different_rounds_by_different_nodes", 1)
+		}
 	}
 }
 
